@@ -83,6 +83,93 @@ Section RingFacts.
   Lemma rh_normal_rotate (p0 p1 p2 : vec) : rh_normal o p1 p2 p0 = rh_normal o p0 p1 p2.
   Proof. unfold rh_normal. vring. Qed.
 
+  (* ------------------------------------------------------------ rotations *)
+  (* a linear map given by its columns *)
+  Definition mv (k0 k1 k2 : vec) (a : vec) : vec :=
+    vadd (vadd (vscale (Normals.vx o a) k0) (vscale (Normals.vy o a) k1)) (vscale (Normals.vz o a) k2).
+  (* right-handed orthonormal columns: a rotation *)
+  Definition rotation (k0 k1 k2 : vec) : Prop :=
+    cross k0 k1 = k2 /\ cross k1 k2 = k0 /\ cross k2 k0 = k1 /\ dot k0 k0 = r1.
+
+  Lemma mv_sub k0 k1 k2 a b : mv k0 k1 k2 (vsub a b) = vsub (mv k0 k1 k2 a) (mv k0 k1 k2 b).
+  Proof. unfold mv. vring. Qed.
+  Lemma mv_add k0 k1 k2 a b : mv k0 k1 k2 (vadd a b) = vadd (mv k0 k1 k2 a) (mv k0 k1 k2 b).
+  Proof. unfold mv. vring. Qed.
+  Lemma mv_zero k0 k1 k2 : mv k0 k1 k2 vzero = vzero.
+  Proof. unfold mv. vring. Qed.
+  Lemma mv_scale k0 k1 k2 k a : mv k0 k1 k2 (vscale k a) = vscale k (mv k0 k1 k2 a).
+  Proof. unfold mv. vring. Qed.
+  Lemma affine_sub k0 k1 k2 t a b :
+    vsub (vadd (mv k0 k1 k2 a) t) (vadd (mv k0 k1 k2 b) t) = mv k0 k1 k2 (vsub a b).
+  Proof. unfold mv. vring. Qed.
+
+  (* bilinearity: the cross product of two images in terms of the cross products of the columns *)
+  Lemma cross_mv_columns k0 k1 k2 a b :
+    cross (mv k0 k1 k2 a) (mv k0 k1 k2 b) =
+    mv (cross k1 k2) (cross k2 k0) (cross k0 k1) (cross a b).
+  Proof. unfold mv. vring. Qed.
+  Lemma dot_mv_columns k0 k1 k2 a b :
+    dot (mv k0 k1 k2 a) (mv k0 k1 k2 b) =
+    Normals.vx o a * Normals.vx o b * dot k0 k0 + Normals.vy o a * Normals.vy o b * dot k1 k1 +
+    Normals.vz o a * Normals.vz o b * dot k2 k2 +
+    (Normals.vx o a * Normals.vy o b + Normals.vy o a * Normals.vx o b) * dot k0 k1 +
+    (Normals.vy o a * Normals.vz o b + Normals.vz o a * Normals.vy o b) * dot k1 k2 +
+    (Normals.vx o a * Normals.vz o b + Normals.vz o a * Normals.vx o b) * dot k0 k2.
+  Proof. unfold mv. vring. Qed.
+
+  Lemma dot_cross_l (u v : vec) : dot (cross u v) u = r0.
+  Proof. vring. Qed.
+  Lemma dot_cross_r (u v : vec) : dot (cross u v) v = r0.
+  Proof. vring. Qed.
+  Lemma triple_cyclic (u v w : vec) : dot (cross u v) w = dot u (cross v w).
+  Proof. vring. Qed.
+  Lemma dot_comm (u v : vec) : dot u v = dot v u.
+  Proof. vring. Qed.
+
+  (* a rotation commutes with the cross product and preserves the dot product *)
+  Lemma rotation_cross k0 k1 k2 a b :
+    rotation k0 k1 k2 -> cross (mv k0 k1 k2 a) (mv k0 k1 k2 b) = mv k0 k1 k2 (cross a b).
+  Proof. intros (H01 & H12 & H20 & _). rewrite cross_mv_columns, H01, H12, H20. reflexivity. Qed.
+
+  Lemma rotation_orthonormal k0 k1 k2 :
+    rotation k0 k1 k2 ->
+    dot k0 k0 = r1 /\ dot k1 k1 = r1 /\ dot k2 k2 = r1 /\ dot k0 k1 = r0 /\ dot k1 k2 = r0 /\ dot k0 k2 = r0.
+  Proof.
+    intros (H01 & H12 & H20 & H00).
+    assert (E22 : dot k2 k2 = r1).
+    { transitivity (dot (cross k0 k1) k2); [rewrite H01; reflexivity|]. rewrite triple_cyclic, H12. exact H00. }
+    assert (E11 : dot k1 k1 = r1).
+    { transitivity (dot (cross k2 k0) k1); [rewrite H20; reflexivity|]. rewrite triple_cyclic, H01. exact E22. }
+    assert (E01 : dot k0 k1 = r0).
+    { transitivity (dot k0 (cross k2 k0)); [rewrite H20; reflexivity|]. rewrite dot_comm. apply dot_cross_r. }
+    assert (E12 : dot k1 k2 = r0).
+    { transitivity (dot k1 (cross k0 k1)); [rewrite H01; reflexivity|]. rewrite dot_comm. apply dot_cross_r. }
+    assert (E02 : dot k0 k2 = r0).
+    { transitivity (dot k0 (cross k0 k1)); [rewrite H01; reflexivity|]. rewrite dot_comm. apply dot_cross_l. }
+    repeat split; assumption.
+  Qed.
+
+  Lemma rotation_dot k0 k1 k2 a b :
+    rotation k0 k1 k2 -> dot (mv k0 k1 k2 a) (mv k0 k1 k2 b) = dot a b.
+  Proof.
+    intro H. destruct (rotation_orthonormal _ _ _ H) as (E00 & E11 & E22 & E01 & E12 & E02).
+    rewrite dot_mv_columns, E00, E11, E22, E01, E12, E02. vring.
+  Qed.
+
+  (* sums of rows commute with a linear map *)
+  Lemma vsum_mv k0 k1 k2 (l : list vec) : vsum (map (mv k0 k1 k2) l) = mv k0 k1 k2 (vsum l).
+  Proof.
+    induction l as [|x l IH]; simpl.
+    - symmetry. apply mv_zero.
+    - rewrite IH, mv_add. reflexivity.
+  Qed.
+
+  Lemma spec_sum_rows_mv k0 k1 k2 (row : tri -> vec) tris v :
+    spec_sum_rows o (fun t => mv k0 k1 k2 (row t)) tris v = mv k0 k1 k2 (spec_sum_rows o row tris v).
+  Proof.
+    unfold spec_sum_rows. rewrite <- vsum_mv, map_map. reflexivity.
+  Qed.
+
   (* ------------------------------------------------------------ arrays *)
   Lemma upd_length {A} (l : list A) i x : length (upd l i x) = length l.
   Proof. revert i; induction l as [|h t IH]; intros [|i]; simpl; auto. Qed.
